@@ -34,6 +34,9 @@ CLAIMED = {
  "C13": dict(tech="exception-conversion totality: lexical try coverage of the parse call, per-handler raise discipline, guarded-read / bounded-index analysis of everything the handler evaluates on the caught exception (through the resolved call graph); grammar-text facts; regex AST star-height check (thorough)",
              text="Decides the error-path clause: reading and parsing a Colang file happen inside a try with a handler for Exception, every handler ends by raising ColangParsingError naming the path, and everything evaluated on the caught exception tolerates an arbitrary exception object. Layout invariance is only backed by grammar-level necessary facts; parser termination is not decided. Found and repaired F11.",
              ref="DESIGN.md C13"),
+ "C15": dict(tech="writer/reader table agreement between the cache-key builder and the message->event converter + injectivity shape of the key; await-marking of every `with llm_params` region on the serving path; enter/exit inverse check; who-may-write on instance attributes along the request path (call graph) vs ContextVar publication",
+             text="Decides the structural conditions of isolation on a shared instance: the history cache key covers, in full and injectively, everything the converter turns into events (F12 known: not injective, pinned by tests); no task switch inside the mutate/restore region of the shared LLM (F13 known at all 28 sites; any new site is a new violation); restore is the inverse of set (F14 known, pinned by tests); request-scoped data only in context variables. Replies under real interleavings are not decided.",
+             ref="DESIGN.md C15"),
 }
 NA = {
  "C18": "equality of string results over all chunkings of a stateful transducer; no structural necessary condition that is not a brittle proxy (DESIGN.md C18)",
